@@ -196,3 +196,13 @@ func (v *VerifPtr) DumpLFU() []int64 {
 	}
 	return append(out, 0)
 }
+
+// VerifHoldShard takes (hold) or releases shard i's write lock on behalf of the harness, so
+// that a queued batch's worker blocks in applyWriteBatch until the harness lets go.
+func (c *Cache[K, V]) VerifHoldShard(i int, hold bool) {
+	if hold {
+		c.shards[i].mu.Lock()
+	} else {
+		c.shards[i].mu.Unlock()
+	}
+}
